@@ -16,7 +16,7 @@ func structFields(t types.Type) []string {
 	}
 	var out []string
 	for i := 0; i < st.NumFields(); i++ {
-		out = append(out, st.Field(i).Name())
+		out = append(out, fieldName(st.Field(i)))
 	}
 	return out
 }
